@@ -124,7 +124,7 @@ structure Entry where
   det : Nat
   tid : Nat
   w : Int
-deriving Repr, BEq
+deriving Repr, BEq, DecidableEq
 
 def findLive (st : St) (tid : Nat) : Option Trk := st.live.find? (fun t => t.id == tid)
 
@@ -226,12 +226,15 @@ def featStream (table : List VEntry) : List Voting.Dist :=
 /-- `VisualVoting`: BestFit over the feature distances (`max_distance = f32::MAX`, `min_votes`);
 each detection with at least one surviving claim is decided here — by its heaviest claim: the
 track if it was awarded to this detection, otherwise (the claim lost) a new track -/
+def decideOne (all : List (Voting.Elt × Bool)) (q : Nat) : Nat × Option Nat :=
+  match all.find? (fun e => e.1.q == q) with
+  | some (e, real) => (q - QBASE, if real then some e.w else none)
+  | none => (q - QBASE, none)
+
 def visualDecided (cfg : Cfg) (table : List VEntry) : List (Nat × Option Nat) :=
   let all := Voting.bestfitAll Nms.F32_MAX cfg.minVotes (featStream table)
   let qs := Voting.firsts (all.map (fun e => e.1.q))
-  qs.map (fun q => match all.find? (fun e => e.1.q == q) with
-    | some (e, real) => (q - QBASE, if real then some e.w else none)
-    | none => (q - QBASE, none))
+  qs.map (decideOne all)
 
 /-- no two surviving claims have the same weight (then the appearance stage has a unique outcome) -/
 def visualUnique (cfg : Cfg) (table : List VEntry) : Bool :=
